@@ -648,6 +648,48 @@ class Sim:
                     edge=ev['edge'], wait_seq=w['seq'], running=w['running'], free=w['free'], ready_since=ready_at))
                 break
 
+    def enumerate_build(self, targets, j, k=1, faults=None, cap=600):
+        """ALL command completion orders of one build (the probe forks at every choice point); every leaf trace is
+        judged by the same oracles. Returns (number of schedules, exhausted?)"""
+        pred = self.model.plan(self.g, self.files, targets) if self.synced else None
+        self.last_model_before = self.model.clone()
+        files_before = copy.deepcopy(self.files)
+        req = self.request(targets, j, k, (), faults, dict(enumerate=True, path_cap=cap))
+        try:
+            leaves = self.probe.request_all(req, timeout_ms=120000)
+        except ProbeDied as d:
+            self.add('C13', 'crash', 'SIM child died while exploring schedules: ' + d.describe(), known=classify_died(self.g, d))
+            return 0, False
+        truncated = any(l.get('truncated') for l in leaves)
+        orders = set()
+        for res in leaves:
+            tr = res['trace']
+            starts = [ev for ev in tr if ev['ev'] == 'start']
+            fins = {ev['edge']: ev for ev in tr if ev['ev'] == 'finish'}
+            started = [ev['edge'] for ev in starts]
+            ok = res['status'] == 0 and res['phase'] in ('build', 'uptodate')
+            orders.add(tuple(ev['edge'] for ev in tr if ev['ev'] == 'finish'))
+            res.setdefault('log', {})
+            res.setdefault('deps', {})
+            saved = self.files
+            self.files = {p: f for p, f in res['files'].items() if p != 'build.ninja'}
+            try:
+                self.oracles(targets, j, k, faults, pred if not faults else pred, res, starts, fins, started, ok, files_before)
+                from .props.C20 import status_invariants
+                why = status_invariants(tr, ok and res['phase'] == 'build')
+                if why:
+                    self.add('C20', 'Status call sequence: ' + why, dict(schedule=res.get('choices')))
+            finally:
+                self.files = saved
+            if any(not f['known'] for f in self.findings):
+                break
+        self.stats['schedules'] = self.stats.get('schedules', 0) + len(leaves)
+        self.stats['distinct_orders'] = self.stats.get('distinct_orders', 0) + len(orders)
+        if not truncated:
+            self.stats['graphs_exhausted'] = self.stats.get('graphs_exhausted', 0) + 1
+        self.labels.add('all_schedules' if not truncated else 'schedules_capped')
+        return len(leaves), not truncated
+
     # ------------------------------------------------------------------ history
     def establish(self):
         for t in graphs.topo_targets(self.g):
@@ -985,3 +1027,32 @@ def run_crash_history(sim, ops, spec):
             sim.files.pop(LOCK, None) if False else None
             check_recovery(sim, targets, 'a crash at %s' % (spec.get('point') or 'runner call %d' % spec.get('n', -1)), detail)
         return
+
+
+def run_all_schedules(sim, ops):
+    """establish, play the history, then make everything dirty and explore EVERY completion order of the full build"""
+    if not sim.establish():
+        return
+    for op in sim.expand(ops):
+        if sim.stop:
+            return
+        if op['op'] == 'build':
+            if not op.get('faults'):
+                sim.build(op)
+        else:
+            sim.apply_change(op)
+    if sim.findings:
+        return
+    for s_ in sim.g['srcs']:
+        sim.write(s_, sim.new_content(s_, 5))
+    last = [o for o in ops if o['op'] == 'build']
+    j = 2 + (len(ops) % 2)
+    faults = None
+    if last and last[-1].get('faults'):
+        cmds = sim.cmd_edges()
+        faults = {}
+        for (a, code, touch) in last[-1]['faults'][:1]:
+            if cmds:
+                e = cmds[a % len(cmds)]
+                faults[key(e)] = dict(fail=code, fail_touch=False)
+    sim.enumerate_build([key(e) for e in sim.g['edges']], j=j, k=(last[-1]['k'] if last else 1), faults=faults)
